@@ -285,22 +285,31 @@ Proof.
   apply Forall_nil.
 Qed.
 
+Lemma run_app c s l1 l2 : run c s (l1 ++ l2) = run c (run c s l1) l2.
+Proof. unfold run. apply fold_left_app. Qed.
+
+Lemma hs_empty : subA hs_state = [] /\ subB hs_state = [] /\ delivered hs_state SA = [] /\ delivered hs_state SB = [].
+Proof. vm_compute. auto. Qed.
+
+Lemma ex_chunks : length (concat (chunks SA ex_writes)) = 51%nat /\ length (concat (chunks SB ex_writes)) = 1487%nat.
+Proof. vm_compute. auto. Qed.
+
 Lemma ex_live :
   let s := run ex_cfg (init_sys true) (hs_trace ++ write_trace ex_writes) in
   (exists a b, Quiescent ex_cfg s a b) /\
   delivered s SB = subA s /\ delivered s SA = subB s /\
   length (subA s) = 51%nat /\ length (subB s) = 1487%nat.
 Proof.
-  intros s. subst s. unfold run. rewrite fold_left_app. fold (run ex_cfg (init_sys true) hs_trace).
-  fold hs_state. fold (run ex_cfg hs_state (write_trace ex_writes)).
-  destruct (writes_delivered ex_cfg ex_writes hs_state _ _ hs_quiescent ex_writes_small) as [HQ Hx].
-  destruct (writes_delivered_bytes ex_cfg ex_writes hs_state _ _ hs_quiescent ex_writes_small SA) as [A1 A2].
-  destruct (writes_delivered_bytes ex_cfg ex_writes hs_state _ _ hs_quiescent ex_writes_small SB) as [B1 B2].
-  cbn [other sub_of] in *.
+  intros s. subst s. rewrite run_app.
+  change (run ex_cfg (init_sys true) hs_trace) with hs_state.
+  generalize hs_quiescent, hs_empty. generalize hs_state. intros s0 HQ0 (E1 & E2 & E3 & E4).
+  destruct (writes_delivered ex_cfg ex_writes s0 _ _ HQ0 ex_writes_small) as [HQ Hx].
+  destruct (writes_delivered_bytes ex_cfg ex_writes s0 _ _ HQ0 ex_writes_small SA) as [A1 A2].
+  destruct (writes_delivered_bytes ex_cfg ex_writes s0 _ _ HQ0 ex_writes_small SB) as [B1 B2].
+  generalize dependent (run ex_cfg s0 (write_trace ex_writes)). intros s1 HQ Hx A1 A2 B1 B2.
+  cbn [other sub_of] in A1, A2, B1, B2.
+  destruct ex_chunks as [C1 C2].
   split; [exact HQ|].
-  assert (E0 : subA hs_state = [] /\ subB hs_state = [] /\ delivered hs_state SA = [] /\ delivered hs_state SB = [])
-    by (vm_compute; auto).
-  destruct E0 as (E1 & E2 & E3 & E4).
   rewrite A1, A2, B1, B2, E1, E2, E3, E4. cbn [app].
-  split; [reflexivity|]. split; [reflexivity|]. split; vm_compute; reflexivity.
+  split; [reflexivity|]. split; [reflexivity|]. split; assumption.
 Qed.
